@@ -11,7 +11,6 @@ Pyro5.config the way an embedding application would.  A second suite ("history")
 real Pyro daemon on loopback with the real client.Proxy (only logging added) and checks the reply bodies as JSON.
 Model side: lean/PyroModel/Gateway.lean through the drv_c20 driver.
 """
-import ast
 import contextlib
 import io
 import json
@@ -53,7 +52,7 @@ ASSUMPTIONS = ["environ carries REQUEST_METHOD, QUERY_STRING and wsgi.errors (PE
                "config.MAX_RETRIES = 0 (the retry loop of _RemoteMethod is C03's subject)",
                "the remote object's metadata does not list names that are attributes of client.Proxy itself"]
 TRUSTED = ["the logging stubs (name server, Proxy subclass) stand for the name server, the network and the remote objects",
-           "canonicalisation of HTTP replies (literal table extracted from the source, JSON bodies parsed)"]
+           "canonicalisation of HTTP replies (table of the gateway's fixed texts observed by probing, JSON bodies parsed)"]
 
 ERR_CLASSES = ["Pyro5.errors.NamingError", "Pyro5.errors.CommunicationError", "Pyro5.errors.ConnectionClosedError",
                "Pyro5.errors.TimeoutError", "Pyro5.errors.PyroError", "builtins.RuntimeError", "builtins.KeyError",
@@ -65,136 +64,179 @@ BUILTIN_CLS = {"builtins.AssertionError": "assertion", "builtins.AttributeError"
 # ----------------------------------------------------------------------------------------------
 # extractor
 # ----------------------------------------------------------------------------------------------
-def _gw_source():
-    path = os.path.join(common.REPO, "Pyro5", "utils", "httpgateway.py")
-    return path, open(path).read()
+# The facts are obtained by PROBING the real pyro_app (behind the logging stubs of this module), not by reading its
+# source: a fact is what the code does on a fixed table of requests, so renaming, extracting helpers, hoisting constants
+# or rewriting the control flow cannot change it, while a change of behaviour does.
+def _pworld(**kw):
+    w = {"nsget": ["ok"], "nslist": [], "lookup": {}, "connect": {}, "bind": {}, "meta": {"methods": [], "attrs": [], "oneway": []},
+         "result": ["ret", "0152"]}
+    w.update(kw)
+    return w
+
+
+def _pcase(path, world=None, **kw):
+    c = {"key": None, "pattern": None, "method": "GET", "path": path, "qs": "", "keyhdr": None, "options": None, "corr": None,
+         "apptmo": 0.0, "world": world or _pworld()}
+    c.update(kw)
+    return c
+
+
+def _body(rep):
+    return b"".join(rep.get("chunks", [])) if rep.get("kind") == "http" else None
+
+
+def _status(rep):
+    return rep["status"] if rep.get("kind") == "http" else -1
+
+
+METHOD_CANDIDATES = ["GET", "POST", "OPTIONS", "PUT", "DELETE", "HEAD", "PATCH", "get", "PTIO", ""]
+SPLIT_PROBES = ["a/b", "a/b/c", "ab/cd/ef/gh", "a//b", "a/b/", "/b", "a/", "a", "//", "a/b\nc/d", "a\n/b", "a/\nb", "a/b/c\n/d/e"]
+URI = "PYRO:probe@h:1"
+
+
+def _substrings(line):
+    return sorted({line[i:j] for i in range(len(line)) for j in range(i + 1, len(line) + 1)})
 
 
 def _facts():
-    """facts of the current source, by ast; raises when the shape is not the expected one"""
-    path, src = _gw_source()
-    tree = ast.parse(src)
-    funcs = {n.name: n for n in tree.body if isinstance(n, ast.FunctionDef)}
-
-    def calls(fn, name):
-        return [n for n in ast.walk(fn) if isinstance(n, ast.Call) and
-                (getattr(n.func, "id", None) == name or getattr(n.func, "attr", None) == name)]
-
-    def status_of(fn):
-        out = []
-        for c in sorted(calls(fn, "start_response"), key=lambda n: (n.lineno, n.col_offset)):
-            a = c.args[0]
-            if not (isinstance(a, ast.Constant) and isinstance(a.value, str)):
-                raise ValueError("start_response status is not a literal in %s" % fn.name)
-            out.append((c.lineno, a.value))
-        return out
-
-    def bytes_consts(fn):
-        return [(n.lineno, n.value) for n in sorted((n for n in ast.walk(fn) if isinstance(n, ast.Constant) and
-                                                     isinstance(n.value, bytes)), key=lambda n: (n.lineno, n.col_offset))]
-
+    """facts of the current code, by probing; raises when a probe does not give an interpretable answer"""
     f = {}
     lits = {}
-    statuses = []
-    for fname, tag in (("invalid_request", "notAllowed"), ("option_request", "optionsOk"), ("not_found", "notFound")):
-        st, bs = status_of(funcs[fname]), bytes_consts(funcs[fname])
-        if len(st) != 1 or len(bs) != 1:
-            raise ValueError("unexpected shape of %s" % fname)
-        lits[bs[0][1]] = tag
-        statuses.append((tag, int(st[0][1].split()[0])))
-    st = status_of(funcs["redirect"])
-    statuses.append(("redirect", int(st[0][1].split()[0])))
-    # process_pyro_request: two 403 refusals, in order key / pattern
-    ppr = funcs["process_pyro_request"]
-    st, bs = status_of(ppr), bytes_consts(ppr)
-    st403 = [s for s in st if s[1].startswith("403")]
-    if len(st403) != 2 or len(bs) != 2:
-        raise ValueError("process_pyro_request: expected exactly two 403 refusals with a literal body")
-    lits[bs[0][1]] = "badKey"
-    lits[bs[1][1]] = "denied"
-    statuses += [("badKey", 403), ("denied", 403)]
-    f["otherStatuses"] = sorted({int(s[1].split()[0]) for s in st if not s[1].startswith("403")})
-    f["refusalLines"] = [s[0] for s in st403]
-    f["trafficLines"] = sorted(c.lineno for name in ("get_nameserver", "Proxy", "lookup") for c in calls(ppr, name))
-    if not f["trafficLines"]:
-        raise ValueError("process_pyro_request: no get_nameserver/Proxy call found")
-    hp = funcs["return_homepage"]
-    st, bs = status_of(hp), bytes_consts(hp)
-    if len(bs) != 1 or [int(s[1].split()[0]) for s in st] != [500, 200]:
-        raise ValueError("unexpected shape of return_homepage")
-    lits[bs[0][1]] = "nsDown"
-    statuses.append(("nsDown", 500))
-    f["statuses"] = statuses
-    f["lits"] = lits
-    # regex and names used by process_pyro_request
-    rx = [c.args[0].value for c in calls(ppr, "match") if isinstance(c.args[0], ast.Constant)]
-    if len(rx) != 1:
-        raise ValueError("process_pyro_request: expected one re.match with a literal pattern")
-    f["splitRegex"] = rx[0]
-    f["environKeys"] = [c.args[0].value for c in sorted(calls(ppr, "get"), key=lambda n: (n.lineno, n.col_offset))
-                        if isinstance(c.func, ast.Attribute) and getattr(c.func.value, "id", None) == "environ"]
-    pk = [c.args[0].value for c in calls(ppr, "get") if getattr(c.func.value, "id", None) == "parameters"]
-    if len(set(pk)) != 1:
-        raise ValueError("process_pyro_request: expected parameters.get of one name")
-    f["keyParam"] = pk[0]
-    cmps = [n for n in ast.walk(ppr) if isinstance(n, ast.Compare)]
-    metas = [n.comparators[0].value for n in cmps if isinstance(n.ops[0], ast.Eq) and getattr(n.left, "id", None) == "method"
-             and isinstance(n.comparators[0], ast.Constant)]
-    ow = sorted({n.left.value for n in cmps if isinstance(n.ops[0], ast.In) and isinstance(n.left, ast.Constant)
-                 and getattr(n.comparators[0], "id", None) == "pyro_options"})
-    if len(metas) != 1 or len(ow) != 1:
-        raise ValueError("process_pyro_request: $meta / oneway comparisons not found")
-    f["metaMember"], f["onewayOption"] = metas[0], ow[0]
-    # pyro_app routing
-    app = funcs["pyro_app"]
-    sw = [c.args[0].value for c in calls(app, "startswith")]
-    sl = [n.slice.lower.value for n in ast.walk(app) if isinstance(n, ast.Subscript) and isinstance(n.slice, ast.Slice)
-          and getattr(n.value, "id", None) == "path" and isinstance(n.slice.lower, ast.Constant) and n.slice.upper is None]
-    ins = [n for n in ast.walk(app) if isinstance(n, ast.Compare) and isinstance(n.ops[0], ast.In)
-           and getattr(n.left, "id", None) == "method"]
-    tup = [[e.value for e in n.comparators[0].elts] for n in ins if isinstance(n.comparators[0], ast.Tuple)]
-    strs = [n.comparators[0].value for n in ins if isinstance(n.comparators[0], ast.Constant)]
-    red = [c.args[1].value for c in calls(app, "redirect")]
-    if len(sw) != 1 or len(sl) != 1 or len(tup) != 1 or len(strs) != 1 or len(red) != 1:
-        raise ValueError("unexpected shape of pyro_app")
-    f["routePrefix"], f["routeSlice"], f["allowedMethods"], f["optionsLiteral"], f["redirectTarget"] = sw[0], sl[0], tup[0], strs[0], red[0]
-    # pyro_app's writes to Pyro's process-global config: item, nesting depth (0 = plain statement of the body), line
-    writes = []
 
-    def walk(stmts, depth):
-        for st in stmts:
-            if isinstance(st, ast.Assign):
-                for t in st.targets:
-                    for tt in (t.elts if isinstance(t, ast.Tuple) else [t]):
-                        if isinstance(tt, ast.Attribute) and getattr(tt.value, "id", None) == "config":
-                            writes.append((tt.attr, depth, st.lineno, st.value))
-            for field in ("body", "orelse", "finalbody"):
-                sub = getattr(st, field, None)
-                if isinstance(sub, list):
-                    walk(sub, depth + 1)
-            for h in getattr(st, "handlers", []) or []:
-                walk(h.body, depth + 1)
-    walk(app.body, 0)
-    ser = [w[3].value for w in writes if w[0] == "SERIALIZER" and isinstance(w[3], ast.Constant) and isinstance(w[3].value, str)]
-    f["configWrites"] = [(w[0], w[1]) for w in writes]
-    f["configWriteLines"] = [w[2] for w in writes]
-    f["configSerializer"] = ser[0] if len(ser) == 1 else "?"
-    reads = [n.lineno for n in ast.walk(app) if (isinstance(n, ast.Call) and isinstance(n.func, ast.Attribute) and
-                                                 getattr(n.func.value, "id", None) == "environ") or
-             (isinstance(n, ast.Subscript) and getattr(n.value, "id", None) == "environ")]
-    if not reads:
-        raise ValueError("pyro_app does not read environ")
-    f["firstEnvironReadLine"] = min(reads)
-    # module level defaults
-    dflt = {}
-    for n in tree.body:
-        if isinstance(n, ast.Assign) and isinstance(n.targets[0], ast.Attribute) and getattr(n.targets[0].value, "id", None) == "pyro_app" \
-                and isinstance(n.value, ast.Constant):
-            dflt[n.targets[0].attr] = n.value.value
-    if "ns_regex" not in dflt or "gateway_key" not in dflt:
-        raise ValueError("defaults of pyro_app.ns_regex / gateway_key not found")
-    f["defaultPattern"], f["defaultKeyIsNone"] = dflt["ns_regex"], dflt["gateway_key"] is None
-    f["path"] = os.path.relpath(path, common.REPO)
+    def target(rep, events):
+        """(object looked up, member invoked) of one probe"""
+        lk = [e[1] for e in events if e[0] == "lookup"]
+        iv = [e for e in events if e[0] == "invoke"]
+        if not lk:
+            return None
+        if len(lk) != 1 or len(iv) != 1:
+            raise ValueError("probe: %d lookups / %d invocations" % (len(lk), len(iv)))
+        e = iv[0]
+        return lk[0], (e[4][0] if e[3] == "__getattr__" else e[3])
+
+    def routed(path, **kw):
+        line = path.split("\n", 1)[0]
+        names = rmatch_names(path)
+        w = _pworld(lookup={n: ["u", URI] for n in names}, meta={"methods": _substrings(line), "attrs": [], "oneway": []})
+        return run_real(_pcase(path, w, **kw))
+
+    # ---- routing: which prefix is cut off, how many characters
+    cut = []
+    for path in ("/pyro/AAA/BBB", "/pyro/pyro/AAA/BBB", "///pyro/AAA/BBB"):
+        t = target(*routed(path))
+        if t is None:
+            raise ValueError("probe: %r is not forwarded" % path)
+        stripped = path.lstrip("/")
+        tail = t[0] + "/" + t[1]
+        if not stripped.endswith(tail):
+            raise ValueError("probe: %r forwarded as %r" % (path, t))
+        cut.append(stripped[:len(stripped) - len(tail)])
+    if len(set(cut)) != 1:
+        raise ValueError("probe: inconsistent route prefix %r" % cut)
+    f["routePrefix"], f["routeSlice"] = cut[0], len(cut[1])
+    # ---- methods
+    allowed, options = [], []
+    for m in METHOD_CANDIDATES:
+        rep, ev = routed("/pyro/AAA/BBB", method=m)
+        if _status(rep) != 405:
+            allowed.append(m)
+            if not ev and _status(rep) == 200:
+                options.append(m)
+                lits[_body(rep)] = "optionsOk"
+                st_options = _status(rep)
+        else:
+            lits[_body(rep)] = "notAllowed"
+    if len(options) != 1:
+        raise ValueError("probe: no single preflight method: %r" % options)
+    f["allowedMethods"], f["optionsLiteral"] = allowed, options[0]
+    rep, ev = run_real(_pcase(""))
+    f["redirectTarget"] = dict(rep.get("headers", [])).get("Location", "?")
+    statuses = [("notAllowed", 405), ("optionsOk", st_options)]
+    rep, ev = run_real(_pcase("/nowhere/a/b"))
+    lits[_body(rep)] = "notFound"
+    statuses += [("notFound", _status(rep)), ("redirect", _status(run_real(_pcase("/"))[0]))]
+    # ---- the split of object and member, on a table of paths
+    f["splitProbes"] = [(p, target(*routed("/pyro/" + p))) for p in SPLIT_PROBES]
+    # ---- key: header, parameter, removal; the two refusals cause no traffic
+    w = _pworld(lookup={"AAA": ["u", URI]}, meta={"methods": ["BBB"], "attrs": ["VVV"], "oneway": []})
+    K = b"K".hex()
+    rep, ev = run_real(_pcase("/pyro/AAA/BBB", w, key=K, keyhdr="K"))
+    hdr_key = target(rep, ev) == ("AAA", "BBB")
+    rep, ev = run_real(_pcase("/pyro/AAA/BBB", w, key=K, qs="$key=K&x=1"))
+    iv = [e for e in ev if e[0] == "invoke"]
+    f["keyParam"] = "$key" if (len(iv) == 1 and iv[0][5] == {"x": "1"}) else "?"
+    rep, ev = run_real(_pcase("/pyro/AAA/BBB", w, key=K, qs="x=1"))
+    lits[_body(rep)] = "badKey"
+    statuses.append(("badKey", _status(rep)))
+    refusal = [("badKey", len(ev))]
+    rep, ev = run_real(_pcase("/pyro/AAA/BBB", w, pattern="ZZZ"))
+    lits[_body(rep)] = "denied"
+    statuses.append(("denied", _status(rep)))
+    refusal.append(("denied", len(ev)))
+    f["refusalEvents"] = refusal
+    # ---- $meta, oneway option, correlation id header
+    rep, ev = run_real(_pcase("/pyro/AAA/$meta", w))
+    try:
+        j = json.loads(_body(rep))
+    except (TypeError, ValueError):
+        j = None
+    f["metaMember"] = "$meta" if (j == {"methods": ["BBB"], "attributes": ["VVV"]} and not [e for e in ev if e[0] == "invoke"]) else "?"
+    rep, ev = run_real(_pcase("/pyro/AAA/BBB", w, options="x,oneway"))
+    iv = [e for e in ev if e[0] == "invoke"]
+    hdr_ow = len(iv) == 1 and iv[0][7] is True and _status(rep) == 200 and _body(rep) == b""
+    f["onewayOption"] = "oneway" if hdr_ow else "?"
+    cid = "11112222-1111-2222-3333-222244449999"
+    rep, ev = run_real(_pcase("/pyro/AAA/BBB", w, corr=cid))
+    hdr_corr = dict(rep.get("headers", [])).get("X-Pyro-Correlation-Id") == cid
+    f["headerProbes"] = [("HTTP_X_PYRO_GATEWAY_KEY", hdr_key), ("HTTP_X_PYRO_OPTIONS", hdr_ow), ("HTTP_X_PYRO_CORRELATION_ID", hdr_corr)]
+    # ---- status of a forwarded call: result / exception reply
+    other = []
+    for res in (["ret", "0152"], ["exc", "0153"]):
+        rep, ev = run_real(_pcase("/pyro/AAA/BBB", dict(w, result=res)))
+        other.append(_status(rep))
+    f["otherStatuses"] = sorted(set(other))
+    rep, ev = run_real(_pcase("/pyro/", _pworld(nsget=["n", "o0"])))
+    lits[_body(rep)] = "nsDown"
+    statuses.append(("nsDown", _status(rep)))
+    f["statuses"] = statuses
+    f["lits"] = {k: v for k, v in lits.items() if k is not None}
+    # ---- Pyro's global config at the moment pyro_app first reads the request, over a short history with foreign writes
+    seen = []
+
+    class ProbeEnviron(dict):
+        def _note(self):
+            E = _env()
+            if not self.__dict__.get("noted"):
+                self.__dict__["noted"] = True
+                seen.append((str(E["config"].SERIALIZER), ms(E["config"].COMMTIMEOUT)))
+
+        def get(self, *a):
+            self._note()
+            return dict.get(self, *a)
+
+        def __getitem__(self, k):
+            self._note()
+            return dict.__getitem__(self, k)
+
+        def __contains__(self, k):
+            self._note()
+            return dict.__contains__(self, k)
+
+    E = _env()
+    config = E["config"]
+    cfg0 = (config.SERIALIZER, config.COMMTIMEOUT)
+    try:
+        for pert in (None, {"serializer": "serpent", "commtimeout": 0.0}, {"serializer": "msgpack", "commtimeout": 1.5},
+                     {"serializer": "marshal", "commtimeout": 0.0}):
+            run_real(_pcase("/pyro/AAA/BBB", w, apptmo=5.0, perturb=pert), keep_config=True, environ_cls=ProbeEnviron)
+    finally:
+        config.SERIALIZER, config.COMMTIMEOUT = cfg0
+    f["configAtFirstRead"], f["configProbeTimeout"] = seen, 5000
+    # ---- defaults of the app object (extraction is the first thing a run does; run_real always restores them)
+    gw = E["gw"]
+    f["defaultPattern"] = gw.pyro_app.ns_regex if isinstance(gw.pyro_app.ns_regex, str) else "?"
+    f["defaultKeyIsNone"] = gw.pyro_app.gateway_key is None
+    f["path"] = os.path.relpath(gw.__file__, common.REPO)
     return f
 
 
@@ -202,43 +244,44 @@ def _cpl(s):
     return "[" + ", ".join(str(ord(c)) for c in s) + "]"
 
 
+def _pairs(items):
+    return "[" + ", ".join("(%s, %s)" % (json.dumps(t), (str(n).lower() if isinstance(n, bool) else n)) for t, n in items) + "]"
+
+
 def extract():
     f = _facts()
     b = "true" if f["defaultKeyIsNone"] else "false"
-    sts = "[" + ", ".join("(%s, %d)" % (json.dumps(t), n) for t, n in f["statuses"]) + "]"
-    cw = "[" + ", ".join("(%s, %d)" % (json.dumps(t), n) for t, n in f["configWrites"]) + "]"
-    return f"""-- GENERATED by harness/props/c20.py from {f["path"]} — do not edit
+    sp = ", ".join("(%s, %s)" % (_cpl(p), "none" if t is None else "some (%s, %s)" % (_cpl(t[0]), _cpl(t[1]))) for p, t in f["splitProbes"])
+    return f"""-- GENERATED by harness/props/c20.py by probing the real pyro_app of {f["path"]} — do not edit
 namespace Pyro.Gen.C20
-/-- path.startswith(<prefix>) and path[<slice>:] in pyro_app -/
+/-- the prefix pyro_app cuts off a forwarded path (after the leading slashes), and how many characters that is -/
 def routePrefix : List Nat := {_cpl(f["routePrefix"])}
 def routeSlice : Nat := {f["routeSlice"]}
-/-- `method in (<tuple>)` and `method in (<str>)` in pyro_app -/
+/-- of the candidate methods {METHOD_CANDIDATES}: those not answered 405; the one answered 200 without traffic -/
 def allowedMethods : List (List Nat) := [{", ".join(_cpl(m) for m in f["allowedMethods"])}]
 def optionsLiteral : List Nat := {_cpl(f["optionsLiteral"])}
+/-- Location of the reply to the empty path -/
 def redirectTarget : String := {json.dumps(f["redirectTarget"])}
-/-- the literal pattern of the re.match that splits object name and member -/
-def splitRegex : String := {json.dumps(f["splitRegex"])}
-/-- environ.get(..) keys read by process_pyro_request, in source order -/
-def environKeys : List String := [{", ".join(json.dumps(k) for k in f["environKeys"])}]
+/-- path after the prefix ↦ (object looked up, member invoked) as observed, `none` = not forwarded -/
+def splitProbes : List (List Nat × Option (List Nat × List Nat)) := [{sp}]
+/-- the request header is honoured (key accepted / call sent oneway / correlation id echoed) -/
+def headerProbes : List (String × Bool) := {_pairs(f["headerProbes"])}
+/-- the query parameter that carries the key and is not passed on; the metadata pseudo-member; the oneway option ("?" = probe failed) -/
 def keyParam : List Nat := {_cpl(f["keyParam"])}
 def metaMember : List Nat := {_cpl(f["metaMember"])}
 def onewayOption : List Nat := {_cpl(f["onewayOption"])}
-/-- status code of every fixed reply (helper functions, the two 403 refusals, name server down) -/
-def statuses : List (String × Nat) := {sts}
-/-- status codes of the remaining start_response calls of process_pyro_request -/
+/-- status code of every fixed reply -/
+def statuses : List (String × Nat) := {_pairs(f["statuses"])}
+/-- status codes of a forwarded call that returned / answered with an exception -/
 def otherStatuses : List Nat := {f["otherStatuses"]}
-/-- source lines of the two 403 refusals and of the calls get_nameserver / lookup / Proxy in process_pyro_request -/
-def refusalLines : List Nat := {f["refusalLines"]}
-def trafficLines : List Nat := {f["trafficLines"]}
+/-- number of Pyro actions caused by a request refused for its key / for the expose pattern -/
+def refusalEvents : List (String × Nat) := {_pairs(f["refusalEvents"])}
 def defaultPattern : String := {json.dumps(f["defaultPattern"])}
 def defaultKeyIsNone : Bool := {b}
-/-- assignments to attributes of Pyro5's `config` inside pyro_app: (item, nesting depth; 0 = a plain statement of the body) -/
-def configWrites : List (String × Nat) := {cw}
-def configWriteLines : List Nat := {f["configWriteLines"]}
-/-- the literal assigned to config.SERIALIZER ("?" when it is not one string literal) -/
-def configSerializer : String := {json.dumps(f["configSerializer"])}
-/-- first line of pyro_app that reads `environ` -/
-def firstEnvironReadLine : Nat := {f["firstEnvironReadLine"]}
+/-- (config.SERIALIZER, config.COMMTIMEOUT ms) at the moment pyro_app first reads `environ`, for four consecutive requests
+    with pyro_app.comm_timeout = configProbeTimeout ms, other code writing serpent / msgpack / marshal in between -/
+def configAtFirstRead : List (String × Nat) := {_pairs(f["configAtFirstRead"])}
+def configProbeTimeout : Nat := {f["configProbeTimeout"]}
 end Pyro.Gen.C20
 """
 
@@ -485,15 +528,8 @@ def _env():
         def __getattr__(self, name):
             return getattr(client, name)
 
-    try:
-        lits = _facts()["lits"]
-    except Exception:       # the extractor does not recognise the source (reported by step A): today's texts
-        lits = {b"Error 405: Method Not Allowed": "notAllowed", b"200 OK": "optionsOk", b"Error 404: Not Found": "notFound",
-                b"403 Forbidden - incorrect gateway api key": "badKey",
-                b"403 Forbidden - access to the requested object has been denied": "denied",
-                b"Cannot connect to the Pyro name server. Is it running? Refresh page to retry.": "nsDown"}
     _ENV = dict(gw=gw, client=client, core=core, config=config, callcontext=callcontext, shim=ClientShim(),
-                get_nameserver=get_nameserver, lits=lits,
+                get_nameserver=get_nameserver,
                 proxy_names=sorted(set(dir(client.Proxy)) | set(vars(client.Proxy("PYRO:x@h:1")))))
     return _ENV
 
@@ -518,7 +554,7 @@ def apply_perturb(config, p):
         config.COMMTIMEOUT = float(p["commtimeout"])     # (replay files carry floats as text)
 
 
-def run_real(case, keep_config=False, prime=False, shim=None, world=None):
+def run_real(case, keep_config=False, prime=False, shim=None, world=None, environ_cls=dict):
     """-> (reply dict, events).  One request against THE gateway app object of this process.
     keep_config: leave Pyro5.config as the request left it (the caller runs a history and restores at its end);
     prime: handle one unrelated request first (replay of a failure that needs a history);
@@ -534,8 +570,8 @@ def run_real(case, keep_config=False, prime=False, shim=None, world=None):
              gw.pyro_app.comm_timeout, cc.current_context.correlation_id, gw._nameserver)
     pre = (config.SERIALIZER, config.COMMTIMEOUT)
     _W = World(world if world is not None else case["world"])
-    environ = {"REQUEST_METHOD": case["method"], "PATH_INFO": case["path"], "QUERY_STRING": case["qs"],
-               "wsgi.errors": io.StringIO(), "SERVER_NAME": "gw", "SERVER_PORT": "8080"}
+    environ = environ_cls({"REQUEST_METHOD": case["method"], "PATH_INFO": case["path"], "QUERY_STRING": case["qs"],
+                           "wsgi.errors": io.StringIO(), "SERVER_NAME": "gw", "SERVER_PORT": "8080"})
     if case["keyhdr"] is not None:
         environ["HTTP_X_PYRO_GATEWAY_KEY"] = case["keyhdr"]
     if case["options"] is not None:
@@ -594,8 +630,24 @@ def canon_action(ev):
     return "local<%s>" % ev[1]
 
 
+_LITS = None
+
+
+def _lits():
+    """the gateway's fixed reply texts, as observed by the probes (today's texts if the probes fail: step A reports that)"""
+    global _LITS
+    if _LITS is None:
+        try:
+            _LITS = _facts()["lits"]
+        except Exception:
+            _LITS = {b"Error 405: Method Not Allowed": "notAllowed", b"200 OK": "optionsOk", b"Error 404: Not Found": "notFound",
+                     b"403 Forbidden - incorrect gateway api key": "badKey",
+                     b"403 Forbidden - access to the requested object has been denied": "denied",
+                     b"Cannot connect to the Pyro name server. Is it running? Refresh page to retry.": "nsDown"}
+    return _LITS
+
+
 def canon_reply(case, rep):
-    E = _env()
     if rep["kind"] == "escaped":
         return "escaped " + cls_token(rep["cls"])
     hd = dict(rep["headers"])
@@ -609,7 +661,7 @@ def canon_reply(case, rep):
         data = b"".join(chunks)
         r = case["world"]["result"]
         if ctype == "plain":
-            body = "lit:" + E["lits"].get(data, "?" + data.hex())
+            body = "lit:" + _lits().get(data, "?" + data.hex())
         elif ctype == "html":
             rows = []
             for row in data.decode("utf-8").split("<tr><td>")[1:]:
